@@ -14,6 +14,9 @@ PInf    == [c |-> "pinf", q |-> RZero]
 NInf    == [c |-> "ninf", q |-> RZero]
 UInf    == [c |-> "uinf", q |-> RZero]
 NaN     == [c |-> "nan", q |-> RZero]
+\* a partial function applied to an opaque value whose membership in the domain TLC cannot decide (asin of
+\* sqrt 2 ...): possibly undefined.  Absorbing like NaN; nothing beyond finiteness is demanded of such an entry.
+Unk     == [c |-> "unk", q |-> RZero]
 IsFin(v)  == v.c = "fin"
 IsZero(v) == v.c = "fin" /\ RIsZero(v.q)
 IsInf(v)  == v.c \in {"pinf", "ninf", "uinf"}
@@ -29,6 +32,7 @@ ENeg(a) == CASE a.c = "fin" -> Fin(RNeg(a.q)) [] a.c = "pinf" -> NInf [] a.c = "
 UFinOfSign(sg) == IF sg = 9 THEN UFin ELSE UFinS(sg)
 EAdd(a, b) ==
     IF a.c = "nan" \/ b.c = "nan" THEN NaN
+    ELSE IF a.c = "unk" \/ b.c = "unk" THEN Unk
     ELSE IF IsInf(a) /\ IsInf(b) THEN (IF a.c = b.c /\ a.c # "uinf" THEN a ELSE NaN)
     ELSE IF IsInf(a) THEN a ELSE IF IsInf(b) THEN b
     ELSE IF IsFin(a) /\ IsFin(b) THEN SafeFin(RAdd(a.q, b.q))
@@ -39,6 +43,7 @@ ESub(a, b) == EAdd(a, ENeg(b))
 MulSign(s, t) == IF s = 9 \/ t = 9 THEN 9 ELSE s * t
 EMul(a, b) ==
     IF a.c = "nan" \/ b.c = "nan" THEN NaN
+    ELSE IF a.c = "unk" \/ b.c = "unk" THEN Unk
     ELSE IF (IsZero(a) /\ IsInf(b)) \/ (IsInf(a) /\ IsZero(b)) THEN NaN
     ELSE IF IsInf(a) \/ IsInf(b) THEN InfOfSign(MulSign(Sgn(a), Sgn(b)))
     ELSE IF IsZero(a) \/ IsZero(b) THEN Fin(RZero)
@@ -46,6 +51,7 @@ EMul(a, b) ==
     ELSE UFinOfSign(MulSign(Sgn(a), Sgn(b)))
 EDiv(a, b) ==
     IF a.c = "nan" \/ b.c = "nan" THEN NaN
+    ELSE IF a.c = "unk" \/ b.c = "unk" THEN Unk
     ELSE IF IsInf(b) THEN (IF IsInf(a) THEN NaN ELSE Fin(RZero))
     ELSE IF IsZero(b) THEN (IF IsZero(a) THEN NaN ELSE IF a.c = "ufin" /\ Sgn(a) = 9 THEN UInf ELSE InfOfSign(Sgn(a)))
     ELSE IF IsInf(a) THEN InfOfSign(MulSign(Sgn(a), Sgn(b)))
@@ -55,40 +61,47 @@ EDiv(a, b) ==
 \* a ** b for an exponent that evaluated to an exact rational
 EPow(a, b) ==
     IF a.c = "nan" \/ b.c = "nan" THEN NaN
-    ELSE IF ~IsFin(b) THEN UFin
+    ELSE IF a.c = "unk" \/ b.c = "unk" THEN Unk
+    ELSE IF ~IsFin(b) THEN (IF Sgn(a) = 1 THEN UFinS(1) ELSE Unk)
     ELSE IF IsZero(b) THEN Fin(ROne)
     ELSE IF IsZero(a) THEN (IF RLess(RZero, b.q) THEN Fin(RZero) ELSE PInf)
     ELSE IF IsInf(a) THEN (IF RLess(RZero, b.q) THEN (IF a.c = "pinf" THEN PInf ELSE UInf) ELSE Fin(RZero))
     ELSE IF IsFin(a) /\ RIsInt(b.q) /\ Abs(b.q[1]) <= 6 THEN SafeFin(RPowInt(a.q, b.q[1]))
     ELSE IF IsFin(a) /\ RLess(a.q, RZero) /\ ~RIsInt(b.q) THEN NaN
     ELSE IF Sgn(a) = 1 THEN UFinS(1)
-    ELSE UFin
-IsSquare(q) == \E r \in 0..30 : r * r * q[2] * q[2] = q[1] * q[2] * q[2] /\ \E s \in 1..30 : s * s = q[2] /\ r * r = q[1]
+    ELSE IF RIsInt(b.q) THEN UFin
+    ELSE IF Sgn(a) = -1 THEN NaN ELSE Unk
+\* exact square roots of small perfect squares (sqrt(9/4) = 3/2), so that norms at rational points stay exact
+HasRoot(q) == \E r \in 0..30, d \in 1..30 : r * r = q[1] /\ d * d = q[2]
+RootOf(q) == LET r == CHOOSE r \in 0..30 : r * r = q[1]  d == CHOOSE d \in 1..30 : d * d = q[2] IN Norm(r, d)
 EUn(f, a) ==
     IF a.c = "nan" THEN NaN
+    ELSE IF a.c = "unk" THEN Unk
     ELSE IF f = "neg" THEN ENeg(a)
     ELSE IF f = "abs" THEN (IF IsInf(a) THEN PInf ELSE IF IsFin(a) THEN Fin(IF RLess(a.q, RZero) THEN RNeg(a.q) ELSE a.q) ELSE UFin)
     ELSE IF f = "sqrt" THEN (IF a.c = "pinf" THEN PInf ELSE IF a.c \in {"ninf", "uinf"} THEN NaN
                              ELSE IF IsZero(a) THEN Fin(RZero) ELSE IF IsFin(a) /\ RLess(a.q, RZero) THEN NaN
-                             ELSE IF IsFin(a) /\ a.q = ROne THEN Fin(ROne) ELSE IF Sgn(a) = 1 THEN UFinS(1) ELSE UFin)
+                             ELSE IF IsFin(a) /\ HasRoot(a.q) THEN Fin(RootOf(a.q))
+                             ELSE IF Sgn(a) = 1 THEN UFinS(1) ELSE IF Sgn(a) = -1 THEN NaN ELSE Unk)
     ELSE IF f \in {"log", "log2", "log10"} THEN (IF a.c = "pinf" THEN PInf ELSE IF IsInf(a) THEN NaN
                              ELSE IF IsZero(a) THEN NInf ELSE IF IsFin(a) /\ RLess(a.q, RZero) THEN NaN
                              ELSE IF IsFin(a) /\ a.q = ROne THEN Fin(RZero)
-                             ELSE IF IsFin(a) THEN UFinS(IF RLess(ROne, a.q) THEN 1 ELSE -1) ELSE UFin)
+                             ELSE IF IsFin(a) THEN UFinS(IF RLess(ROne, a.q) THEN 1 ELSE -1)
+                             ELSE IF Sgn(a) = 1 THEN UFin ELSE IF Sgn(a) = -1 THEN NaN ELSE Unk)
     ELSE IF f = "exp" THEN (IF a.c = "pinf" THEN PInf ELSE IF a.c = "ninf" THEN Fin(RZero) ELSE IF IsZero(a) THEN Fin(ROne) ELSE UFinS(1))
     ELSE IF f \in {"sin", "tan", "tanh", "sinh", "atan", "asinh"} THEN
             (IF IsZero(a) THEN Fin(RZero) ELSE IF IsInf(a) THEN (IF f \in {"sin", "tan"} THEN NaN ELSE UFin) ELSE UFin)
     ELSE IF f \in {"cos", "cosh"} THEN (IF IsZero(a) THEN Fin(ROne) ELSE IF IsInf(a) THEN (IF f = "cos" THEN NaN ELSE PInf)
                                         ELSE IF f = "cosh" THEN UFinS(1) ELSE UFin)
     ELSE IF f = "asin" THEN (IF IsZero(a) THEN Fin(RZero) ELSE IF IsInf(a) THEN NaN
-                             ELSE IF IsFin(a) /\ (RLess(ROne, a.q) \/ RLess(a.q, R(-1))) THEN NaN ELSE UFin)
+                             ELSE IF IsFin(a) /\ (RLess(ROne, a.q) \/ RLess(a.q, R(-1))) THEN NaN ELSE IF IsFin(a) THEN UFin ELSE Unk)
     ELSE IF f = "acos" THEN (IF IsFin(a) /\ a.q = ROne THEN Fin(RZero) ELSE IF IsInf(a) THEN NaN
-                             ELSE IF IsFin(a) /\ (RLess(ROne, a.q) \/ RLess(a.q, R(-1))) THEN NaN ELSE UFin)
+                             ELSE IF IsFin(a) /\ (RLess(ROne, a.q) \/ RLess(a.q, R(-1))) THEN NaN ELSE IF IsFin(a) THEN UFin ELSE Unk)
     ELSE IF f = "acosh" THEN (IF IsFin(a) /\ a.q = ROne THEN Fin(RZero) ELSE IF a.c = "pinf" THEN PInf
-                             ELSE IF IsFin(a) /\ RLess(a.q, ROne) THEN NaN ELSE IF IsInf(a) THEN NaN ELSE UFin)
+                             ELSE IF IsFin(a) /\ RLess(a.q, ROne) THEN NaN ELSE IF IsInf(a) THEN NaN ELSE IF IsFin(a) THEN UFin ELSE Unk)
     ELSE IF f = "atanh" THEN (IF IsZero(a) THEN Fin(RZero) ELSE IF IsFin(a) /\ a.q = ROne THEN PInf
                              ELSE IF IsFin(a) /\ a.q = R(-1) THEN NInf ELSE IF IsInf(a) THEN NaN
-                             ELSE IF IsFin(a) /\ (RLess(ROne, a.q) \/ RLess(a.q, R(-1))) THEN NaN ELSE UFin)
+                             ELSE IF IsFin(a) /\ (RLess(ROne, a.q) \/ RLess(a.q, R(-1))) THEN NaN ELSE IF IsFin(a) THEN UFin ELSE Unk)
     ELSE UFin
 
 RECURSIVE ExtEval(_, _)
@@ -106,10 +119,12 @@ ExtEval(t, env) ==
            [] t.op = "**" -> EPow(a, b)
 
 \* what a sanitised derivative callable must return for an entry of that class
-\*   "fin" q: exactly q ; "ufin": the finite true value ; "undef": 0 ; "+big" / "-big" / "big": (+-)1e16
+\*   "fin" q: exactly q ; "ufin": the finite true value ; "undef": 0 ; "+big" / "-big" / "big": (+-)1e16 ;
+\*   "any": undecidable here whether the entry is defined - any finite number
 Sanitize(v) == CASE v.c = "fin" -> [cls |-> "fin", q |-> v.q]
                  [] v.c = "ufin" -> [cls |-> "ufin", q |-> RZero]
                  [] v.c = "nan"  -> [cls |-> "undef", q |-> RZero]
+                 [] v.c = "unk"  -> [cls |-> "any", q |-> RZero]
                  [] v.c = "pinf" -> [cls |-> "+big", q |-> RZero]
                  [] v.c = "ninf" -> [cls |-> "-big", q |-> RZero]
                  [] v.c = "uinf" -> [cls |-> "big", q |-> RZero]
